@@ -587,8 +587,6 @@ def h_eigs(V, lenV, happy, hermitian, k, which):
     val, Y = out.value
     ea = w['expand_args']
     V.check('krylov-space-started-from-the-normalised-start-vector', ea['lenV'] == 1 and ea['first'] == ('scaled', 'v0') and ea['hermitian'] == hermitian)
-    req = lenV - 1 if lenV > 1 else 1
-    V.check('krylov-space-never-larger-than-the-vector-nor-than-requested', And(ea['ncv'] <= w['vsize'], ea['ncv'] <= req, Or(ea['ncv'] == req, ea['ncv'] == w['vsize'])))
     V.check('projected-matrix-has-the-dimension-of-the-kept-basis', w['T_dim'] == m)
     V.check('hermitian-flag-selects-the-dense-solver', w['solver'] == ('eigh' if hermitian else 'eig'))
     V.check('requested-part-of-the-spectrum', w['which'] == which)
